@@ -857,7 +857,24 @@ class TorConfig:
             # parse_keywords if it was unspecified
             real_name = self._find_real_name(k)
             if real_name in self.parsers:
-                v = self.parsers[real_name].parse(v)
+                parser = self.parsers[real_name]
+                is_list = real_name in self.list_parsers
+                if v == DEFAULT_VALUE:
+                    # the option is now unset; see also __getattr__
+                    v = self.__dict__['_defaults'].get(
+                        real_name, [] if is_list else DEFAULT_VALUE
+                    )
+                    if not is_list and v != DEFAULT_VALUE:
+                        v = parser.parse(v)
+                else:
+                    v = parser.parse(v)
+                if is_list:
+                    # list-valued options stay lists we keep track
+                    # of, whether Tor told us 0, 1 or many values
+                    if not isinstance(v, list):
+                        v = [v]
+                    v = _ListWrapper(
+                        v, functools.partial(self.mark_unsaved, real_name))
             self.config[real_name] = v
 
     def bootstrap(self, arg=None):
